@@ -258,7 +258,11 @@ class CGraph:
 
         utpm_x_list = []
         for xi in x_list:
-            element = numpy.asarray(xi).reshape((1,1) + numpy.shape(xi))
+            element = numpy.asarray(xi)
+            if element.dtype.kind in 'iub':
+                # an integer valued point: the derivatives are not integers
+                element = element.astype(float)
+            element = element.reshape((1,1) + numpy.shape(xi))
             utpm_x_list.append(algopy.UTPM(element))
 
         self.pushforward(utpm_x_list)
